@@ -347,6 +347,42 @@ theorem space_openMulti_eq (ck : CK F) (p pts S : List F) (hS : vanishing pts = 
   · simp [List.length_take]; omega
   · simp [List.length_drop]; omega
 
+theorem eval_monic (S : List F) (x : F) :
+    evalPoly (S ++ [1]) x = x ^ S.length + evalPoly S x := by
+  rw [eval_append]; simp; ring
+
+/-- the quotient and remainder `divide_with_q_and_r` returns for a monic divisor: bounded lengths
+and the division identity -/
+theorem time_divide_spec [DecidableEq F] (p S : List F) :
+    ∃ q r, Time.divideWithQAndR p (S ++ [1]) = .ok (q, r) ∧ q.length ≤ p.length
+      ∧ r.length ≤ S.length
+      ∧ ∀ x, evalPoly p x = evalPoly q x * evalPoly (S ++ [1]) x + evalPoly r x := by
+  rw [divide_monic]
+  have hle := pnorm_length_le p
+  by_cases hlt : (pnorm p).length < S.length + 1
+  · rw [if_pos hlt]
+    exact ⟨[], pnorm p, rfl, by simp, by omega, fun x => by simp [eval_pnorm]⟩
+  · rw [if_neg hlt]
+    refine ⟨_, _, rfl, ?_, ?_, ?_⟩
+    · have := (divLoop_length 1 S.reverse ((pnorm p).length - S.length) (pnorm p).reverse
+        (by simp)).1
+      have h2 := pnorm_length_le (Time.divLoop 1 S.reverse ((pnorm p).length - S.length)
+        (pnorm p).reverse).1.reverse
+      simp only [List.length_reverse] at h2 this
+      omega
+    · have := (divLoop_length 1 S.reverse ((pnorm p).length - S.length) (pnorm p).reverse
+        (by simp)).2
+      have h2 := pnorm_length_le (Time.divLoop 1 S.reverse ((pnorm p).length - S.length)
+        (pnorm p).reverse).2.reverse
+      simp only [List.length_reverse] at h2 this
+      omega
+    · intro x
+      have hspec := divLoop_spec S.reverse ((pnorm p).length - S.length) (pnorm p).reverse x
+        (by simp; omega)
+      simp only [List.reverse_reverse, List.length_reverse, eval_pnorm] at hspec
+      simp only [eval_pnorm, eval_monic]
+      exact hspec
+
 /-- **`CommitterKeyStream::open_multi_points` returns the proof of `CommitterKey::open_multi_points`**
 for every coefficient list (shorter than, as long as, or longer than the point set, normalised or
 not), every non-empty point list and every key with at least as many elements as coefficients. -/
@@ -357,8 +393,19 @@ theorem space_openMulti_proof_eq_time [DecidableEq F] (ck : CK F) (p pts : List 
   obtain ⟨S, hS, hSl⟩ := vanishing_monic pts
   refine ⟨_, space_openMulti_eq ck p pts S hS hSl hm hL, ?_⟩
   unfold Time.openMultiPoints
-  rw [hS, divide_monic]
-  simp only [Time.commit]
+  rw [if_neg (by omega), hS]
+  -- the quotient is no longer than the polynomial: the assertion of the inner `commit` holds too
+  have hqlen : ∀ qr, Time.divideWithQAndR p (S ++ [1]) = .ok qr → qr.1.length ≤ p.length := by
+    intro qr h
+    obtain ⟨q, r, hqr, hql, -, -⟩ := time_divide_spec p S
+    rw [hqr] at h
+    injection h with h
+    subst h
+    exact hql
+  have hd := divide_monic p S
+  rw [hd]
+  simp only
+  rw [time_commit_eq ck _ (le_trans (hqlen _ hd) hL)]
   congr 1
   -- the coefficient vector is its normal form followed by `j` zeros
   have hp := pnorm_append_zeros p
@@ -392,9 +439,25 @@ theorem space_openMulti_proof_eq_time [DecidableEq F] (ck : CK F) (p pts : List 
     simp only [List.reverse_append, List.reverse_replicate]
     rw [dot_append_zeros, dot_take _ _ _ (by simp [hql]; omega)]
 
-theorem eval_monic (S : List F) (x : F) :
-    evalPoly (S ++ [1]) x = x ^ S.length + evalPoly S x := by
-  rw [eval_append]; simp; ring
+/-- a polynomial with more coefficients than the key has powers: `CommitterKey::open_multi_points`
+aborts (fix D24) whatever the points -/
+theorem time_openMulti_abort [DecidableEq F] (ck : CK F) (p pts : List F)
+    (h : ck.powersOfG.length < p.length) :
+    Time.openMultiPoints ck p pts = .error .abort := by
+  unfold Time.openMultiPoints
+  rw [if_pos h]
+
+/-- … and `batch_open_multi_points` with it, when the η-combination (without its high-order zeros) is
+oversize -/
+theorem time_batchOpenMulti_abort [DecidableEq F] (ck : CK F) (ps : List (List F)) (pts b : List F)
+    (η : F) (hb : linearCombination ps (powersOf η ps.length) = some b)
+    (h : ck.powersOfG.length < (pnorm b).length) :
+    Time.batchOpenMultiPoints ck ps pts η = .error .abort := by
+  unfold Time.batchOpenMultiPoints
+  split
+  · rfl
+  · rw [hb]
+    exact time_openMulti_abort ck _ pts h
 
 /-- **the remainder window of the streaming prover**: `m` entries, and (big-endian) it takes the
 values of the polynomial on the evaluation points — it is `f mod Z`. -/
@@ -424,38 +487,6 @@ theorem space_openMulti_remainder (ck : CK F) (p pts : List F) (hm : 1 ≤ pts.l
       eval_append_zeros] at hspec
     simp only
     rw [hspec]; ring
-
-/-- the quotient and remainder `divide_with_q_and_r` returns for a monic divisor: bounded lengths
-and the division identity -/
-theorem time_divide_spec [DecidableEq F] (p S : List F) :
-    ∃ q r, Time.divideWithQAndR p (S ++ [1]) = .ok (q, r) ∧ q.length ≤ p.length
-      ∧ r.length ≤ S.length
-      ∧ ∀ x, evalPoly p x = evalPoly q x * evalPoly (S ++ [1]) x + evalPoly r x := by
-  rw [divide_monic]
-  have hle := pnorm_length_le p
-  by_cases hlt : (pnorm p).length < S.length + 1
-  · rw [if_pos hlt]
-    exact ⟨[], pnorm p, rfl, by simp, by omega, fun x => by simp [eval_pnorm]⟩
-  · rw [if_neg hlt]
-    refine ⟨_, _, rfl, ?_, ?_, ?_⟩
-    · have := (divLoop_length 1 S.reverse ((pnorm p).length - S.length) (pnorm p).reverse
-        (by simp)).1
-      have h2 := pnorm_length_le (Time.divLoop 1 S.reverse ((pnorm p).length - S.length)
-        (pnorm p).reverse).1.reverse
-      simp only [List.length_reverse] at h2 this
-      omega
-    · have := (divLoop_length 1 S.reverse ((pnorm p).length - S.length) (pnorm p).reverse
-        (by simp)).2
-      have h2 := pnorm_length_le (Time.divLoop 1 S.reverse ((pnorm p).length - S.length)
-        (pnorm p).reverse).2.reverse
-      simp only [List.length_reverse] at h2 this
-      omega
-    · intro x
-      have hspec := divLoop_spec S.reverse ((pnorm p).length - S.length) (pnorm p).reverse x
-        (by simp; omega)
-      simp only [List.reverse_reverse, List.length_reverse, eval_pnorm] at hspec
-      simp only [eval_pnorm, eval_monic]
-      exact hspec
 
 end SKZG
 end PCV
